@@ -3,6 +3,7 @@
 From Coq Require Import List Arith Bool.
 From LokyV Require Import Lib.LedgerLib Lib.PoolLib Gen.Ledger Gen.Pool Model.Pool Proofs.PoolThm.
 From LokyV Require Model.KillLock Proofs.KillLockThm Lib.WorkerLib Gen.Worker Proofs.WorkerThm.
+From LokyV Require Model.Wake Proofs.WakeThm.
 Import ListNotations.
 
 (* whatever happened before (a graceful shutdown included), shutdown(kill_workers=True) sets both flags *)
@@ -54,4 +55,17 @@ Print Assumptions C06_worker_only_probes_the_management_lock.
 
 Example C06_h10_kill_without_the_lock :
   let s := fold_left (KillLock.step_with false) [KillLock.Probe; KillLock.MgrKillAll] (KillLock.ks0 2) in KillLock.hold s = KillLock.ByDead.
+Proof. vm_compute. reflexivity. Qed.
+
+(* a forced shutdown drops every pending item AND forgets the work ids still waiting (generated fact), so the manager's last look at
+   the work ids (the re-check added for H11) never finds an id whose item is gone: the manager thread never dies of KeyError and runs
+   its clean-up.  The first version of the H11 repair broke exactly this (caught by C20's thorough tier, repaired). *)
+Theorem C06_manager_survives_a_forced_shutdown : forall es, Wake.ph (Wake.run es Wake.ws0) <> Wake.MCrashed.
+Proof. exact WakeThm.manager_never_crashes. Qed.
+Print Assumptions C06_manager_survives_a_forced_shutdown.
+
+Example C06_recheck_without_forgetting_the_ids :
+  let s := fold_left (Wake.step_with true false Wake.wake_ops)
+             [Wake.Mgr; Wake.SubmitBegin; Wake.SubStep; Wake.SubStep; Wake.SubStep; Wake.ShutdownKill; Wake.Mgr; Wake.Mgr; Wake.Mgr; Wake.Mgr] Wake.ws0 in
+  Wake.ph s = Wake.MCrashed.
 Proof. vm_compute. reflexivity. Qed.
